@@ -16,6 +16,7 @@ import (
 	"sort"
 	"strings"
 	"testing"
+	"time"
 
 	"github.com/modelcontextprotocol/go-sdk/internal/verifx"
 	vs "github.com/modelcontextprotocol/go-sdk/internal/vsched"
@@ -216,7 +217,8 @@ func c05StreamableClose() vs.Verdict {
 		ran++
 		return &CallToolResult{}, nil, nil
 	})
-	h := NewStreamableHTTPHandler(func(*http.Request) *Server { return s }, &StreamableHTTPOptions{Logger: quietLogger})
+	// an idle timeout is configured: closing the session must also leave no armed timer behind
+	h := NewStreamableHTTPHandler(func(*http.Request) *Server { return s }, &StreamableHTTPOptions{Logger: quietLogger, SessionTimeout: time.Hour})
 	do := func(method, sid, body string) *httptest.ResponseRecorder {
 		var rd io.Reader
 		if body != "" {
@@ -244,6 +246,12 @@ func c05StreamableClose() vs.Verdict {
 	}
 	if sid == "" || ss == nil {
 		return vs.Verdict{Bad: "no session", Sig: "c05 setup"}
+	}
+	h.mu.Lock()
+	info := h.sessions[sid]
+	h.mu.Unlock()
+	if info == nil {
+		return vs.Verdict{Bad: "session not registered with the handler", Sig: "c05 setup"}
 	}
 	vs.Quiet(false)
 	const calls = 12 // more than the transport's incoming queue holds
@@ -296,6 +304,13 @@ func c05StreamableClose() vs.Verdict {
 	}
 	if n != 0 {
 		f.failf("session-not-forgotten", "after the close the server still lists %d sessions", n)
+	}
+	// every HTTP exchange of the session has ended and the session is closed: its idle timer must be gone
+	info.timerMu.Lock()
+	armed := info.timer != nil && info.timer.Stop()
+	info.timerMu.Unlock()
+	if armed {
+		f.failf("idle-timer-left-armed", "the session is closed and forgotten, yet its idle-timeout timer is still armed")
 	}
 	sort.Strings(outs)
 	return f.verdict(strings.Join(outs, " "))
